@@ -835,6 +835,7 @@ func scenarios(thorough bool) []scenario {
 		dnsScenario("dns-same-host", 1, []time.Duration{ttl}, L("a", "a"), L("a")),
 		dnsScenario("dns-two-slots", 2, []time.Duration{ttl / 2, ttl / 2}, L("a", "b"), L("b", "c")),
 		dnsScenario("dns-dial", 2, nil, L("dial:a"), L("a"), L("dial:a")),
+		heavy(dnsScenario("dns-refill", 2, nil, L("a", "b", "c", "d"), L("a"))),
 		dnsLiveScenario("dns-dial-live", 1, []time.Duration{ttl}, L("dial:a"), L("b"), L("dial:a")),
 		transportScenario("transport-get", nil, []string{"x"}, []string{"x"}, []string{"y"}),
 		transportScenario("transport-reap-explicit", nil, []string{"x", "x"}, []string{"REAP"}, []string{"y", "x"}),
